@@ -33,7 +33,7 @@ fn payload_strategy() -> impl Strategy<Value = Vec<u8>> {
 
 pub fn seg_strategy() -> impl Strategy<Value = Seg> {
     prop_oneof![
-        5 => (payload_strategy(), 0u8..64).prop_map(|(payload, reserved)| Seg::Valid { payload, reserved }),
+        10 => (payload_strategy(), 0u8..64).prop_map(|(payload, reserved)| Seg::Valid { payload, reserved }),
         3 => prop::collection::vec(any::<u8>(), 0..20).prop_map(Seg::Garbage),
         2 => Just(Seg::LoneD3),
         2 => (0u16..1024, 0u8..64, prop::collection::vec(any::<u8>(), 0..30)).prop_map(|(len, reserved, body)| Seg::LongHeader { len, reserved, body }),
